@@ -9,6 +9,8 @@ R16.3  cmpxchg returns the value observed in memory
 R16.4  effective address / operand roles / stack effect of the templates (as R05.2)
 R16.5  mutex-based configuration (what big-endian hosts use): every read-modify-write / compare-exchange is one lock region of
        mem->mutex that contains both the read and the write (rule shared with C19 R19.1)
+R16.6  one memory for all threads: an instance created for a thread aliases its creator's descriptor of a shared memory, for every
+       limits pair including min == max (rule shared with C18 R18.4)
 """
 from .. import astdb, pe, emit, oracle, templates, runtime, memrules as mr
 from . import c01, c05
@@ -112,6 +114,11 @@ def run(chk):
         if row['sem']['cls'] in ('atomic.rmw', 'atomic.cmpxchg'):
             c19.check_function(chk, bhtu, row, 'be', callees, rule='R16.5')
     chk.floor('R16.5', 49)
+    # "atomic across threads": the threads of an instance family operate on one memory - every instance made for a thread aliases its
+    # creator's descriptor of a module-defined shared memory, whatever the memory's limits (rule shared with C18 R18.4 / C06 R06.4)
+    from . import c06
+    c06.check_shared_descriptor(chk, tus, 'R16.6')
+    chk.floor('R16.6', 5)
     chk.floor('R16.1', 63 * 3)
     chk.floor('R16.3', 7)
     chk.floor('R16.4', 63 * 6)
